@@ -26,3 +26,7 @@ func readerReceive(e *actor.Engine, stream remote.DRPCRemote_ReceiveStream) erro
 }
 
 func unwrapDeliver(msg any) (wireDeliver, bool) { return wireDeliver{}, false }
+
+func sharedReader(e *actor.Engine) func(stream remote.DRPCRemote_ReceiveStream) error {
+	return func(remote.DRPCRemote_ReceiveStream) error { return nil }
+}
